@@ -158,6 +158,7 @@ func init() {
 		c20Overlay(c)
 		c20MergeOrder(c)
 		c20SnapshotAndPrecedence(c)
+		c20DeepCopyAndStop(c)
 		c.usubRule("arith", func(fn *ssa.Function) bool {
 			return pkgRelOf(fn) == "sync/preconfirmed" && strings.HasSuffix(p.File(fnPos(fn)), "/chain_storage.go")
 		}, map[string]string{
@@ -575,5 +576,84 @@ func c20SnapshotAndPrecedence(c *Ctx) {
 		})
 		ok := first != nil && second != nil && dominatesInstr(first, second)
 		c.check(ok, "overlay-precedence", "pending.State."+row.m+": "+row.first+" before "+row.second, p.Pos(fnPos(f)), "the section holding the later effect is consulted first", "the overlay consults "+row.second+" before "+row.first+": for an address that was deployed and later changed within the pre-confirmed window the earlier value wins and the view no longer equals the base overlaid with the diffs in order")
+	}
+}
+
+// c20DeepCopyAndStop: (no-shallow-clone) a map whose values are themselves maps is never copied with maps.Clone in the code
+// that builds pre-confirmed entries: the outer copy shares the inner maps with the published (immutable) entry, and a later
+// Merge into the copy writes through them; (stop-test-every-iteration) the loop that folds the view's diffs up to the
+// requested block evaluates its stop test on every iteration — an early `continue` that bypasses it lets the fold run on
+// to the tip.
+func c20DeepCopyAndStop(c *Ctx) {
+	p := c.P
+	n := 0
+	for _, fn := range p.sortedFuncs() {
+		pr := pkgRelOf(fn)
+		if !(pr == "core" || pr == "core/pending" || pr == "adapters/sn2core" || strings.HasPrefix(pr, "sync")) || strings.HasSuffix(p.Pos(fnPos(fn)), "_test.go") {
+			continue
+		}
+		for _, s := range sitesOf(fn) {
+			if s.Callee == nil {
+				continue
+			}
+			cal := s.Callee
+			if cal.Origin() != nil {
+				cal = cal.Origin()
+			}
+			if cal.Object() == nil || cal.Object().Pkg() == nil || cal.Object().Pkg().Path() != "maps" || cal.Name() != "Clone" {
+				continue
+			}
+			n++
+			mt, ok := s.Args()[0].Type().Underlying().(*types.Map)
+			nested := false
+			if ok {
+				switch mt.Elem().Underlying().(type) {
+				case *types.Map, *types.Slice:
+					nested = true
+				}
+			}
+			c.check(!nested, "no-shallow-clone", qname(fn)+" → maps.Clone("+typeShort(s.Args()[0].Type())+")", p.Pos(s.Pos()), "values are not themselves maps/slices", "maps.Clone copies only the outer map: the inner maps stay shared with the original, so merging into the copy mutates the entry it was cloned from (a pinned pre-confirmed view then shows later writes)")
+		}
+	}
+	if n == 0 {
+		c.ok("no-shallow-clone", "maps.Clone call sites", "", "none in the pre-confirmed / state-diff code")
+	}
+	c.needFixture("no-shallow-clone")
+	// stop test
+	f := p.Func("sync/preconfirmed", "ChainReader", "PreConfirmedStateAt")
+	if f == nil {
+		c.und("stop-test-every-iteration", "ChainReader.PreConfirmedStateAt", "", "anchor not found")
+		return
+	}
+	k := 0
+	for _, g := range withAnons(f) {
+		if g == f {
+			continue
+		}
+		// the range-over-func body: returns false to stop, true to continue
+		var stop *ssa.If
+		allInstrs(g, func(in ssa.Instruction) {
+			if iff, ok := in.(*ssa.If); ok {
+				t := term(iff.Cond)
+				if strings.Contains(t, "Number == ") && strings.Contains(t, "blockNumber") || strings.Contains(t, "blockNumber == ") {
+					stop = iff
+				}
+			}
+		})
+		if stop == nil {
+			continue
+		}
+		k++
+		ok := true
+		for _, ret := range returnsOf(g) {
+			if !dominatesInstr(stop, ret.Ret) {
+				ok = false
+			}
+		}
+		merge := findSite(g, "Merge")
+		c.check(ok && merge != nil && dominatesInstr(merge.Instr, stop), "stop-test-every-iteration", "PreConfirmedStateAt: fold loop", p.Pos(posOf(stop, g)), "every iteration merges the entry's diff and then evaluates the stop test", "an iteration of the fold can end without evaluating `entry.Block.Number == blockNumber` (or without merging first): for a requested block with an empty diff the fold runs on and the state at that block equals the state at the tip")
+	}
+	if k == 0 {
+		c.und("stop-test-every-iteration", "PreConfirmedStateAt", p.Pos(fnPos(f)), "fold loop with a stop test not found")
 	}
 }
